@@ -3,11 +3,13 @@ EXTENDS Writer, Json
 \* option vector: maxRows decides row groups; the others are concretised by the harness
 CfgsQuick == [maxRows : {0, 1, 2, 3}, ver : {1, 2}, codec : {"none", "snappy"},
               enc : {"default"}, dict : {"inf"}, pagebuf : {"default"}, wbuf : {"default"}, stats : {"default"},
-              bloom : {""}, sort : {""}]
+              bloom : {""}, sort : {""}, pool : {""}]
 CfgsFull  == [maxRows : {0, 1, 2, 3, 70}, ver : {1, 2}, codec : {"none", "snappy", "gzip", "zstd", "lz4", "brotli"},
               enc : {"default", "plain", "delta", "split", "dict"}, dict : {"inf", "tiny", "off"},
               pagebuf : {"default", "tiny"}, wbuf : {"default", "zero", "small"}, stats : {"default", "off", "nobounds"},
-              bloom : {"", "on", "deferred"}, sort : {"", "declared"}]
+              bloom : {"", "on", "deferred"}, sort : {"", "declared"},
+              \* page buffers: the default pool, an in-memory pool with 64-byte chunks, temporary files (PageBuffer.tla)
+              pool : {"", "chunk64", "file"}]
 \* -simulate: exactly one scenario per behaviour, printed by a final action
 Ended == Len(hist) > 0 /\ hist[Len(hist)].op = "end"
 Finish == /\ (Len(hist) = MaxOps \/ closed) /\ ~Ended
